@@ -46,7 +46,8 @@ def _store_ev(n):
 
 
 def check(cx):
-    return _check(cx) + b9(cx)
+    from . import c03
+    return _check(cx) + b9(cx) + c03.envelopes(cx, ID)
 
 
 def b9(cx):
